@@ -1,6 +1,51 @@
 HOOK_COMMITS = ["dcda180"]
 NOT_APPLICABLE = {}
 CHECKS = {
+ "C04": {
+  "technique": "runtime monitoring: reported deterministic trajectories compared with the matrix-exponential solution (linear networks) or two cross-checked high-accuracy scipy integrations of the reference rate equations, over generated networks and uniform/non-uniform grids",
+  "text": "Every generated model is simulated through py_simulate_model (frame and result), DeterministicSimulator on plain and safe interfaces; each row is compared with an exact/independent solution within 2e-5*(1+max|x|); row 0 must equal the initial condition. Held = no mismatch on the trajectories observed.",
+  "note": "Trusted base: scipy expm / solve_ivp (accepted only when two references agree to 1e-8 and the problem is well conditioned); vlib/ref.py rate equations; class limited to T*L <= 8.",
+ },
+ "C05": {
+  "technique": "runtime monitoring, statistical: empirical law of 1e5-1e6 seeded SSA runs per network tested cell by cell (marginals and joint pairs) against the CME solution with exact binomial tails (per-cell level 1e-15) and an independent confirming second stage",
+  "text": "Finite-state template networks with random wiring and grids are run through SSASimulator (plain, safe) and py_simulate_model; counter species expose waiting time and reaction choice separately. Held = no cell rejected at both stages on the networks observed; false-alarm probability <= 1e-9 per stage.",
+  "note": "Trusted base: reference propensities (vlib/ref.py) and scipy expm of the generator; resolution about 8*sqrt(p(1-p)/n) per cell - smaller biases pass.",
+ },
+ "C06": {
+  "technique": "runtime monitoring: exact per-trajectory invariants (counter-species firing identity or MILP lattice feasibility, integrality, rational conservation laws, non-negativity, absorption) over generated networks, seeds and six simulators",
+  "text": "Each reported trajectory must satisfy x-x0 = N S + D Sd with its own firing counters (or be MILP-feasible), keep every conservation law, stay non-negative (mass action / safe mode) and stay put once the reference total propensity is zero. Held = no invariant broken on the trajectories observed.",
+  "note": "Trusted base: vlib/ref.py stoichiometry and propensities, sympy rational null space, scipy milp. Delayed reactants are excluded here (they may legitimately leave the non-negative domain); rules absent.",
+ },
+ "C10": {
+  "technique": "runtime monitoring: exact delivery accounting with counter species and drained final queues, exact fixed-delay delivery windows, plus exact-tail statistical monitors (DKW for delay draws, Poisson in-flight law, CME for zero delay) with a confirming second stage",
+  "text": "Delay, delay+volume and py_simulate_model runs must keep 0<=D<=N, x-x0=N S+D Sd and queue == N(T)-D(T); fixed delays must deliver inside their two/three-row window; delay samplers, in-flight counts and the zero-delay law are tested with non-asymptotic bounds. Held = none broken / rejected twice on what was observed.",
+  "note": "Trusted base: vlib/ref.py, scipy.stats cdfs, the in-flight mean derived in DESIGN.md (C10); dyadic grid steps for the exact windows; delayed reactants drawn from an abundant species.",
+ },
+ "C11": {
+  "technique": "runtime monitoring: constant-volume law tested against the CME with volume-scaled propensities (exact binomial tails, two stages); growth and division checked row by row against the growth law and the volume model's division instant",
+  "text": "VolumeSSASimulator and py_simulate_model(volume=...) on V-sensitive template networks; StochasticTimeThresholdVolume / StateDependentVolume growth on firing, empty and exhausting models with dyadic and non-dyadic steps; division row, flag and truncation. Held = no rejection at both stages and no row outside its bounds on what was observed.",
+  "note": "Trusted base: vlib/ref.py volume-scaled rate laws, scipy expm; growth law V0*exp(g t) within one step; division row exact only for dyadic steps (+-1 otherwise).",
+ },
+ "C12": {
+  "technique": "runtime monitoring: observational equivalence of a generated model and its SBML re-import (species, parameters, stoichiometry, four rate forms via guarded probes, seeded delay draws, rule frequencies and effects), both export kinds and both import routes; double write compared",
+  "text": "Every generated model is written twice and read back; the listed observables are compared by name at sampled states. Held = no observable differs on the round trips observed.",
+  "note": "Trusted base: the comparison is between two bioscrape models (original vs re-import), so it is independent of the reference rate laws; ode rules and names that are not SBML identifiers are outside the generator.",
+ },
+ "C13": {
+  "technique": "runtime monitoring: SBML documents built directly with libsbml, imported by bioscrape and compared with the harness's own evaluation of the document's ASTs (initial values, global parameters, stoichiometry, rule list, net derivative); icontract postcondition on import_sbml_rules",
+  "text": "Random L3v2 documents with colliding local parameters, stoichiometries 1-3, modifiers and interleaved assignment/rate rules; the imported model's net derivative at 8 states must equal stoichiometry x kinetic law + rate rules. Held = no mismatch on the documents observed.",
+  "note": "Trusted base: libsbml reader/writer/AST API; vlib/sbmlref.py evaluator. Documents failing libsbml's consistency check are discarded and counted; explicit refusals are counted and make the run inconclusive above 25%.",
+ },
+ "C14": {
+  "technique": "runtime monitoring: written SBML read with libsbml only; kinetic-law ASTs evaluated by the harness at sampled states and compared with the propensity objects' deterministic / stochastic rates; identifier closure and stoichiometries checked",
+  "text": "Deterministic and stochastic exports of generated models; every kinetic law must close over the document's identifiers and equal the model's rate at 8 states; species-reference stoichiometries must equal multiplicities. Held = only the listed known finding (Hill-family law text) on what was observed.",
+  "note": "Trusted base: libsbml AST API, vlib/sbmlref.py (log without base = log10). Known finding C14/hill-kinetic-law is reported as KNOWN-FINDING; any other mismatch fails.",
+ },
+ "C18": {
+  "technique": "runtime monitoring: py_get_jacobian / py_get_sensitivity_to_parameter compared with sympy derivatives of the reference rate equations under the scheme's own truncation bound; icontract snapshot/postcondition that the parameter dictionary is unchanged",
+  "text": "Smooth generated networks, two states each, four difference schemes, every parameter name including generated dummy names; tolerance = 2 x truncation bound (higher derivative maximised over the stencil) + rounding terms. Held = all entries within bound and parameters unchanged on what was observed.",
+  "note": "Trusted base: sympy differentiation, vlib/ref.py rate equations; h fixed at the library's 0.01.",
+ },
  "C01": {
   "technique": "runtime monitoring: reference-model oracle (closed-form rate laws) on the real propensity objects and on the plain/safe interface evaluation loops via guarded probes, over generated reactions, boundary states, volumes and four modes",
   "text": "Each generated reaction is evaluated by the rebuilt code in 4 modes x 3 routes and compared (rel 1e-12) with ref.rate; every type x mode x route cell is reached >= 20 times or the run is inconclusive. Held = no mismatch on the evaluations observed.",
